@@ -153,13 +153,44 @@ func (e *env) runDuplex(in DuplexInput) (DuplexObs, string) {
 		// let the proxy see it before the next step
 		time.Sleep(4 * time.Millisecond)
 	}
-	// both directions have been ended by the script (or one side waits for the other's end)
-	for _, r := range []*sideReader{cr, br} {
+	// the script is over.  A direction it has left open stays open: wait until nothing moves any
+	// more (both readers ended, or no byte for 150 ms), take the observation, and only then close
+	snap := func(r *sideReader) (int, bool) {
+		r.mu.Lock()
+		defer r.mu.Unlock()
+		return len(r.got), r.eof
+	}
+	ended := func(r *sideReader) bool {
 		select {
 		case <-r.end:
-		case <-time.After(2500 * time.Millisecond):
+			return true
+		default:
+			return false
 		}
 	}
+	lastC, _ := snap(cr)
+	lastB, _ := snap(br)
+	quiet := time.Now()
+	deadline := time.Now().Add(4 * time.Second)
+	for time.Now().Before(deadline) {
+		if ended(cr) && ended(br) {
+			break
+		}
+		c, _ := snap(cr)
+		b, _ := snap(br)
+		if c != lastC || b != lastB {
+			lastC, lastB, quiet = c, b, time.Now()
+		} else if time.Since(quiet) > 150*time.Millisecond {
+			break
+		}
+		time.Sleep(2 * time.Millisecond)
+	}
+	cr.mu.Lock()
+	ob.DownLen, ob.DownH, ob.CEof = len(cr.got), fnv64(cr.got), cr.eof
+	cr.mu.Unlock()
+	br.mu.Lock()
+	ob.UpLen, ob.UpH, ob.BEof = len(br.got), fnv64(br.got), br.eof
+	br.mu.Unlock()
 	cc.Close()
 	bc.Close()
 	<-cr.end
@@ -175,13 +206,7 @@ func (e *env) runDuplex(in DuplexInput) (DuplexObs, string) {
 		}
 		break
 	}
-	cr.mu.Lock()
-	ob.DownLen, ob.DownH, ob.CEof = len(cr.got), fnv64(cr.got), cr.eof
-	cr.mu.Unlock()
-	br.mu.Lock()
-	ob.UpLen, ob.UpH, ob.BEof = len(br.got), fnv64(br.got), br.eof
-	br.mu.Unlock()
-	deadline := time.Now().Add(500 * time.Millisecond)
+	deadline = time.Now().Add(500 * time.Millisecond)
 	for {
 		ob.Events = e.capCount("copy", caddr) - ev0
 		if ob.Events > 0 || time.Now().After(deadline) {
